@@ -487,7 +487,7 @@ theorem server_is_declarative_matcher (opts : List RunOpt) (groups : List Group)
 /-! non-vacuity: two groups, a prefix with a trailing slash, a relative route path, a custom 404 handler -/
 
 def exServer : Server :=
-  [({ pfx := some "/api/", routes := [("GET", "users/:id", some 1), ("POST", "/users", some 2)] } : Group),
+  [({ opts := [.pfx "/api/"], routes := [("GET", "users/:id", some 1), ("POST", "/users", some 2)] } : Group),
    ({ routes := [("GET", "/health/", some 3)] } : Group)].foldl Server.addRoutes (newServer [.notFound (some 9)])
 
 example : exServer.bindRoutes.2 = none := by decide
@@ -498,8 +498,8 @@ example : exServer.bindRoutes.1.router.serveHTTP "GET" "/API/users/42" = .custom
 example : exServer.bindRoutes.1.router.serveHTTP "PUT" "/api/users" = .defaultNotAllowed ["POST"] := by decide
 -- a duplicate across groups (same cleaned path through another prefix split) aborts the start-up
 def exDupServer : Server :=
-  [({ pfx := some "/api", routes := [("GET", "/v1/a", some 1)] } : Group),
-   ({ pfx := some "/api/v1", routes := [("GET", "a/", some 2)] } : Group)].foldl Server.addRoutes (newServer [])
-example : exDupServer.bindRoutes.2 = some (.tree .dupItem) := by decide
+  [({ opts := [.pfx "/api"], routes := [("GET", "/v1/a", some 1)] } : Group),
+   ({ opts := [.pfx "/api/v1"], routes := [("GET", "a/", some 2)] } : Group)].foldl Server.addRoutes (newServer [])
+example : exDupServer.bindRoutes.2 = some (.tree .dupItem) := by decide +kernel
 
 end GoZero.C09
